@@ -313,3 +313,16 @@ impl RegexMatchHandler {
         });
     }
 }
+
+// Verification hooks (add-only, `cargo kani` only): plain forwarders to
+// private functions; no logic of their own.
+#[cfg(kani)]
+impl<'a> AnalyzeIter<'a> {
+    pub(crate) fn verif_compute_nesting_table(pattern: &'a [char]) -> HashMap<usize, usize> {
+        Self::compute_nesting_table(pattern)
+    }
+
+    pub(crate) fn verif_process_matching_substring(&self, current: &[char]) -> Vec<MatchEntry> {
+        self.process_matching_substring(current)
+    }
+}
